@@ -378,6 +378,12 @@ def Storage.findByMAC (s : Storage) (mac : MAC) : Got :=
   | none => .panic
   | some l => l.got
 
+/-- `foundMAC := s.dhcp.MACByIP(ip)`, then `FindByMAC` unless it is nil. -/
+def Storage.findByLease (s : Storage) (ip : IP) : Got :=
+  match s.macByIP ip with
+  | some mac => s.findByMAC mac
+  | none => .none
+
 /-- `index.find` followed by the DHCP fallback of `Storage.Find`. -/
 def Storage.find (s : Storage) (id : IdStr) : Got :=
   match s.index.findByClientID id.raw with
@@ -400,10 +406,7 @@ def Storage.find (s : Storage) (id : IdStr) : Got :=
       | _ =>
         match id.asIP with
         | none => .none
-        | some ip =>
-          match s.macByIP ip with
-          | some mac => s.findByMAC mac
-          | none => .none
+        | some ip => s.findByLease ip
 
 /-- `filtering.Settings`, the fields `ApplyClientFiltering` writes. -/
 structure Settings where
@@ -425,10 +428,7 @@ def Storage.resolve (s : Storage) (id : Bytes) (addr : IP) : Got :=
     match s.index.findByIP addr with
     | .found c => .client c
     | .dangling => .panic
-    | .none =>
-      match s.macByIP addr with
-      | some mac => s.findByMAC mac
-      | none => .none
+    | .none => s.findByLease addr
 
 /-- What `ApplyClientFiltering` does to `setts` once the client is known. -/
 def Client.apply (c : Client) (setts : Settings) : Settings :=
